@@ -186,11 +186,22 @@ def run(F, R, tier):
                     out_.append((8, casts))
             return out_
         # which match arm (literal width) reaches which writer
+        def arms_by_literal(body):
+            """(integer literal, code run for it): arms of a match with literal patterns, or the branches of an
+            `if w == 2 {..} else if w == 1 {..}` chain"""
+            for m in H.find(body, lambda x: x.get("k") == "match" and not H.is_try(x)):
+                for a in m["arms"]:
+                    if a["pat"].get("k") == "plit" and a["pat"]["lit"].get("lk") == "int":
+                        yield a["pat"]["lit"]["v"], a["body"]
+            for x in H.find(body, lambda x: x.get("k") == "if"):
+                c = H.strip(x["c"])
+                if c.get("k") == "bin" and c["op"] == "==":
+                    for a_, b_ in ((c["l"], c["r"]), (c["r"], c["l"])):
+                        if H.strip(b_).get("k") == "lit" and H.strip(b_).get("lk") == "int" and H.is_local(H.strip(a_)):
+                            yield H.strip(b_)["v"], x["t"]
         wmap = {}
-        for m in H.find(mk_b, lambda x: x.get("k") == "match" and not H.is_try(x)):
-            for a in m["arms"]:
-                if a["pat"].get("k") == "plit":
-                    wmap[a["pat"]["lit"]["v"]] = writers(a["body"])
+        for lit_, body_ in arms_by_literal(mk_b):
+            wmap[lit_] = writers(body_)
         R.ob("make-codec", "arm per width", wmap.get(2) == [(16, ["u16"])] and wmap.get(1) == [(8, ["u8"])],
              str(wmap), F.loc(mk))
 
@@ -223,10 +234,8 @@ def run(F, R, tier):
                     return ("be" if "from_be" in cal else "le", len(offs))
             return H.render(e)
         rmap = {}
-        for m in H.find(ro_b, lambda x: x.get("k") == "match" and not H.is_try(x)):
-            for a in m["arms"]:
-                if a["pat"].get("k") == "plit":
-                    rmap[a["pat"]["lit"]["v"]] = reader(a["body"])
+        for lit_, body_ in arms_by_literal(ro_b):
+            rmap[lit_] = reader(body_)
         R.ob("read-operands-codec", "2 → from_be_bytes([ins[o], ins[o+1]]), 1 → ins[o]",
              rmap.get(2) == ("be", 2) and rmap.get(1) == ("-", 1), str(rmap), F.loc(ro))
         # both iterate def.operand_widths
